@@ -840,6 +840,12 @@ void recordVariableEquivalences(const ComponentPtr &component, EquivalenceMap &e
                 indexStack.push_back(index);
             }
             auto equivalentVariable = variable->equivalentVariable(j);
+            // An equivalent variable that is not in the same model (or that
+            // no component owns) has no location in it.
+            if ((owningComponent(equivalentVariable) == nullptr)
+                || (owningModel(equivalentVariable) != owningModel(variable))) {
+                continue;
+            }
             auto equivalentVariableIndexStack = indexStackOf(equivalentVariable);
             if (equivalenceMap.count(indexStack) == 0) {
                 equivalenceMap.emplace(indexStack, std::vector<IndexStack>());
